@@ -222,3 +222,7 @@ pub fn num_cpus_get() -> (r: usize)
     // the generated file is verified, never run; the real call is num_cpus::get()
     std::thread::available_parallelism().map(|n| n.get()).unwrap_or(1)
 }
+
+pub uninterp spec fn f64_is_finite_spec(x: f64) -> bool;
+pub assume_specification [f64::is_finite] (x: f64) -> (r: bool) ensures r == f64_is_finite_spec(x);
+pub assume_specification [f64::is_nan] (x: f64) -> (r: bool);
